@@ -271,10 +271,10 @@ func runCase(b *rt.Built, s *m.Service, meth *m.Method, c *caseRec) string {
 // judge compares one observation with the reference semantics.
 func judge(d *m.Design, s *m.Service, meth *m.Method, sent value.V, obs *harness.Obs, viaClient bool) string {
 	if obs.Panic != "" {
-		return "panic in generated client code: " + firstLines(obs.Panic, 8)
+		return "panic in generated client code: " + firstLines(obs.Panic, 24)
 	}
 	if obs.ServerPanic != "" {
-		return "panic in generated server code: " + firstLines(obs.ServerPanic, 8)
+		return "panic in generated server code: " + firstLines(obs.ServerPanic, 24)
 	}
 	if len(obs.Requests) != 1 {
 		return fmt.Sprintf("the call produced %d HTTP requests, want exactly 1", len(obs.Requests))
@@ -291,13 +291,13 @@ func judge(d *m.Design, s *m.Service, meth *m.Method, sent value.V, obs *harness
 		}
 		return fmt.Sprintf("service method invoked %d times for a valid payload (status %d, body %q)", obs.StubCalls, status, trunc(body))
 	}
-	variants := oracle.ExpectedVariants(d, meth.Payload, oracle.Canonicalize(d, meth.Payload, sent))
+	want := oracle.Canonicalize(d, meth.Payload, sent)
 	got := oracle.Canonicalize(d, meth.Payload, obs.Received)
 	if !obs.HadPayload {
 		got = value.Nil()
 	}
-	if msg := oracle.DiffAny(variants, got); msg != "" {
-		return fmt.Sprintf("payload seen by the method differs: %s\n  sent:     %s\n  expected: %s\n  received: %s", msg, sent.Canon(), variants[0].Canon(), got.Canon())
+	if msg := oracle.Match(d, meth.Payload, want, got, false, ""); msg != "" {
+		return fmt.Sprintf("payload seen by the method differs: %s\n  sent:     %s\n  received: %s", msg, sent.Canon(), got.Canon())
 	}
 	if viaClient {
 		if msg := oracle.CheckRequestLocations(d, s, meth, sent, obs.Requests[0]); msg != "" {
